@@ -222,10 +222,9 @@ namespace xsimd
             {
                 // -other is not representable when other is the minimum value:
                 // clamp self against the bounds shifted by other instead of negating
-                auto mask = (other >> (8 * sizeof(T) - 1));
                 auto self_pos_branch = max(std::numeric_limits<T>::min() + other, self);
                 auto self_neg_branch = min(std::numeric_limits<T>::max() + other, self);
-                return select(batch_bool<T, A>(mask.data), self_neg_branch, self_pos_branch) - other;
+                return select(other < batch<T, A>(T(0)), self_neg_branch, self_pos_branch) - other;
             }
             else
             {
